@@ -110,7 +110,7 @@ CLAIMED = {
     },
     "C20": {
         "technique": "Coq proof (frame/locality/projection over interleavings of several arenas; write footprint inside own chunks) + hook-observed finger stores compared with the model",
-        "text": "C20_frame / C20_local / C20_projection / C20_footprint_owned / C20_chunkless_writes_nothing. " + ARENA_TEXT + "The implementation's finger stores are reported by the --cfg bumpalo_verif hook and checked by sp_stores_owned on every operation. That disjoint write footprints imply data-race freedom rests on the Rust memory model (trusted).",
+        "text": "C20_frame / C20_local / C20_projection / C20_footprint_owned / C20_chunkless_writes_nothing. " + ARENA_TEXT + "The implementation's finger stores are reported by the --cfg bumpalo_verif hook and checked by sp_stores_owned on every operation. The vec engine contributes a cross-arena section (collections of two arenas that meet through append / extend / push_str: every buffer stays inside its own arena's chunks and growth is charged to that arena only). That disjoint write footprints imply data-race freedom rests on the Rust memory model (trusted).",
         "design_ref": "DESIGN.md §6 C20",
     },
     "C08": {
